@@ -3,6 +3,7 @@ package main
 import (
 	"encoding/json"
 	"fmt"
+	"os"
 	"regexp"
 	"sort"
 	"strings"
@@ -151,6 +152,35 @@ func planOne(name string, optArgs []ast.Argument, assignments []ast.Assignment, 
 			binds[i] = bind{idents, as.Method}
 		case as.Value.Envelope != nil:
 			eff.Unknown = "envelope"
+			if vs := as.Value.Envelope.Values; as.Method == ast.AppendAssignment && len(vs) == 1 && vs[0].Value.Argument != nil {
+				// one branch of a union appended to a list (disjunction_as_options after array_to_append): the wrapper
+				// struct encodes as the branch it holds, so the appended element is the argument itself
+				if i, ok := argIdx[vs[0].Value.Argument.Name]; ok {
+					eff.Unknown = ""
+					eff.ArgIdx = i
+					binds[i] = bind{idents, ast.AppendAssignment}
+				}
+			}
+			if as.Method == ast.DirectAssignment {
+				// a struct assembled from several arguments: each member is an effect of its own below the target
+				for _, ev := range as.Value.Envelope.Values {
+					if ev.Value.Argument == nil {
+						continue
+					}
+					i, ok := argIdx[ev.Value.Argument.Name]
+					if !ok {
+						return nil, "envelope uses an unknown argument"
+					}
+					sub := c09Effect{Method: ast.DirectAssignment, ArgIdx: i, Path: append([]c09Step(nil), eff.Path...)}
+					keys := append([]string(nil), idents...)
+					for _, it := range ev.Path {
+						sub.Path = append(sub.Path, c09Step{Ident: it.Identifier})
+						keys = append(keys, it.Identifier)
+					}
+					binds[i] = bind{keys, ast.DirectAssignment}
+					effects = append(effects, sub)
+				}
+			}
 		default:
 			eff.Const = as.Value.Constant
 		}
@@ -550,6 +580,9 @@ func checkC09(r *Run) {
 					calls, skipped := planCalls(b, doc, accept)
 					for _, s := range skipped {
 						r.Count("options_not_planned/"+afterColon(s), 1)
+						if os.Getenv("VERIF_DEBUG") != "" {
+							fmt.Printf("DEBUG not planned: %s %s %s.%s\n", cs.Extra, lang, b.Name, s)
+						}
 					}
 					ctor, why := planCtor(b, doc)
 					if ctor == nil {
